@@ -20,3 +20,5 @@ impl Address {
     /// lenient parser used for embedded addresses: falls back to a malformed-address carrier, so it says nothing about the length
     #[verifier::external_body] pub fn from_bytes_impl_unsafe(data: &[u8]) -> (r: Address) { unimplemented!() }
 }
+impl Clone for Credential { #[verifier::external_body] fn clone(&self) -> (r: Self) ensures r == *self { unimplemented!() } }
+impl Clone for Pointer { #[verifier::external_body] fn clone(&self) -> (r: Self) ensures r == *self { unimplemented!() } }
